@@ -47,7 +47,7 @@ def _alias_check(r):
 
 
 def _stop_check(r):
-    return True
+    return r.stop_ok
 
 
 def run_impl_many(scenarios, opts=None, parallel=True):
@@ -155,3 +155,47 @@ def writes(tr):
 
 def event_codes(tr):
     return [it[1][0] for it in tr if it[0] == 0]
+
+
+# ---------------------------------------------------------------- timeline: trace items with virtual time and call attribution
+def timeline(sc, tr):
+    """Returns list of dicts {t, kind, ...} with virtual time in ticks.
+    kind: 'ev' (code, fields), 'write' (ok, raw, frame, by_app), 'call' (action, result), 'sockclose', 'selclose', 'blocked', 'wait'."""
+    from . import ref6455
+    steps = sc.get("steps", [])
+    app = sc.get("app", {})
+    now = 0
+    k = 0
+    nev = 0
+    pending_actions = []
+    out = []
+    for i, it in enumerate(tr):
+        c = it[0]
+        if c == 10:
+            if k < len(steps):
+                now += steps[k][1]
+            k += 1
+            out.append(dict(t=now, kind="wait"))
+        elif c == 0:
+            out.append(dict(t=now, kind="ev", code=it[1][0], fields=it[1][1:], index=nev))
+            pending_actions = list(app.get(nev, app.get(str(nev), ())))
+            nev += 1
+        elif c in (1, 2):
+            by_app = i + 1 < len(tr) and tr[i + 1][0] == 4
+            if it[1] == "close-1002":
+                fr = dict(op=8, payload=b"\x03\xea", fin=it[2], rsv=it[3], masked=it[4], key=it[5], minimal=True)
+            else:
+                fr = ref6455.decode_client_frame(it[1])
+            out.append(dict(t=now, kind="write", ok=(c == 1), raw=it[1], frame=fr, by_app=by_app))
+        elif c == 3:
+            out.append(dict(t=now, kind="request", ok=bool(it[1])))
+        elif c == 4:
+            act = pending_actions.pop(0) if pending_actions else None
+            out.append(dict(t=now, kind="call", action=act, result=it[1]))
+        elif c == 5:
+            out.append(dict(t=now, kind="sockclose"))
+        elif c == 6:
+            out.append(dict(t=now, kind="selclose"))
+        elif c == 7:
+            out.append(dict(t=now, kind="blocked"))
+    return out
